@@ -175,6 +175,15 @@ def mk_cases(ctx):
     for f in ([("\x1b[31mx", {"bold": True})], [("a", {}), ("\x1b[1mb\x1b[0m", {"fg": 31})], [("a\x1b[1mb", {})],
               [("\x1b[31m", {"bg": 44}), ("x", {})]):
         cases.append(dict(op="repr", f=f))
+    # an escape sequence split between ADJACENT UNFORMATTED runs (built with +, which takes a plain str verbatim) next to a
+    # formatted run: the repr joins the literals with + before they meet the FmtStr; not D27-shaped (no formatted run has
+    # ESC '[' in its own text), so these must evaluate back exactly
+    for parts in (["\x1b", "[31mz"], ["\x1b[", "31mz"], ["\x1b[3", "1mz"], ["a\x1b", "[1mb\x1b", "[0m"], ["\x9b", "31mz"]):
+        plain = [(t, {}) for t in parts]
+        for fmt in ([("q", {"bold": True})], [("q", {"fg": 34}), ("r", {})]):
+            cases.append(dict(op="repr", f=plain + fmt))
+            cases.append(dict(op="repr", f=fmt + plain))
+            cases.append(dict(op="repr", f=plain[:1] + fmt + plain[1:]))
     # bytes operands: FmtStr.__eq__ accepts bytes and compares str(other), i.e. the repr text b'...'
     for f, b in (([("b'a'", {})], "a"), ([("a", {})], "a"), ([("b'a'", {"fg": 31})], "a"), ([], ""), ([("b''", {})], ""),
                  ([("b'\\xff'", {})], "\xff")):
